@@ -122,13 +122,16 @@ Compile(n) ==
                ELSE \/ Cardinality(cache) < Cells /\ cache' = cache \cup {Len(emitted) + 2} /\ UNCHANGED evict
                     \/ \E x \in cache : cache' = (cache \ {x}) \cup {Len(emitted) + 2} /\ evict' = evict + 1
 
-FreezeOne ==
+\* (the node compiler is a parameter so that a trace specification can resolve
+\* its nondeterminism from a recorded compile event: Trace_Step.tla)
+FreezeOneW(Comp(_)) ==
     /\ pc \in {"freeze", "finish"} /\ tgt + 1 < Len(stack)
     /\ LET top == stack[Len(stack)]
            fr == IF pend = NONE_ADDR THEN top ELSE Attach(top, pend)
-       IN  Compile(NodeOf(fr))
+       IN  Comp(NodeOf(fr))
     /\ stack' = SubSeq(stack, 1, Len(stack) - 1)
     /\ UNCHANGED <<last, acc, hist, pc, tgt, sfx, sout>>
+FreezeOne == FreezeOneW(Compile)
 
 RECURSIVE PushSfx(_, _)
 PushSfx(st, bs) ==
@@ -149,12 +152,13 @@ CallFinish ==
     /\ pc = "idle" /\ pc' = "finish" /\ tgt' = 0 /\ pend' = NONE_ADDR
     /\ UNCHANGED <<stack, emitted, cache, evict, last, acc, hist, sfx, sout>>
 
-EndFinish ==
+EndFinishW(Comp(_)) ==
     /\ pc = "finish" /\ Len(stack) = 1
     /\ LET fr == IF pend = NONE_ADDR THEN stack[1] ELSE Attach(stack[1], pend)
-       IN  Compile(NodeOf(fr))
+       IN  Comp(NodeOf(fr))
     /\ pc' = "done" /\ stack' = <<>>
     /\ UNCHANGED <<last, acc, hist, tgt, sfx, sout>>
+EndFinish == EndFinishW(Compile)
 
 Next == \/ \E k \in Keys, v \in Vals : CallInsert(k, v) \/ Reject(k, v)
         \/ FreezeOne \/ EndFreeze \/ CallFinish \/ EndFinish
